@@ -34,7 +34,7 @@ func H_C14_DoernerDerive() {
 	rcv := &ConfigReceiver{SecretShare: group.NewScalar().Set(sR), Public: K, ChainKey: c14Fill(2)}
 	depth := vsym.Param("depth", 2)
 	for d := 0; d < depth; d++ {
-		idx := vsym.Uint32("index")
+		idx := vsym.Uint32([]string{"index0", "index1", "index2", "index3"}[d])
 		vsym.Assume(idx < 1<<31)
 		vsym.Assert(len(snd.ChainKey) == 32 && vsym.BytesEq(snd.ChainKey, rcv.ChainKey), "both sides hold the same 32-byte chain key")
 		mac := hmac.New(sha512.New, snd.ChainKey)
